@@ -50,10 +50,37 @@
     Omitted for Covariance: the identity-view theorem and the entry-wise independence
     statement (for the repaired code the latter follows from `cov_fixed_eq_pure`, which
     identifies the step with `Gpv.Covariance.push`, and `Gpv.C12.cov_entry`).
+  ADDED (section 7) — the plain `Mean`, whose read-out `acc.value` IS its state array, so
+  `acc += acc.value[::-1]` passes a view of the state.  `meanStepOne` = the code as it is
+  (`_val += obj/_n - _val/_n`, everything read before the write), `meanStepTwo` = the
+  two-statement rewrite `_val -= _val/_n ; _val += obj/_n` (a view is read after step 1
+  changed it), `meanStepPure` = the scalar `Gpv.Mean.push` in every component.
+    * `meanStepPure_val_getElem?`, `meanStepPure_val_getElem`, `meanStepPure_n`,
+      `meanStepPure_toVal`, `mean_one_toVal`   relation to `Gpv.Mean.push`, scalar and
+                                   array model (`Mean (Val K)`);
+    * `mean_one_eq_pure`           the code as it is: for every well-formed state and EVERY
+                                   observation (fresh or any view σ)
+                                   `meanStepOne st o = meanStepPure st (mReadObs st o)`
+                                   (`mean_one_eq_pure_any`: even without the shape hypothesis);
+                                   no field axiom, holds for floats;
+    * `stepRaw_mean_eq_meanStepOne`   it is the mean update inside `Variance`;
+    * `mean_two_fresh_eq_one`, `mean_two_fresh_eq_pure`   (any field) on the caller's own
+                                   array the rewrite is the same real-number function
+                                   (in floats: equal up to rounding only, not covered);
+    * `mean_one_identity_view`     (any field) `acc += acc.value` leaves the array unchanged;
+    * `mean_two_identity_view`     (any field, all d) the rewrite gives `v·(1 − 1/n'²)` in
+                                   every component there; `mean_two_identity_view_ne_one`;
+    * `exM_reached`, `mean_one_view_value`, `mean_pure_view_value`, `mean_two_view_value`,
+      `mean_two_view_counterexample`, `mean_two_ne_one_counterexample`,
+      `mean_two_identity_counterexample`   d = 2, n = 3 → 4, exact rationals, reversed view;
+    * `MIndependent d step`, `mean_components_independent_one` / `mean_one_independent`,
+      `mean_one_component`         the code as it is satisfies the C12 clause;
+    * `mean_two_not_independent`   the rewrite violates it (view against copy).
 -/
 import Gpv.Model.Alias
 import Mathlib.Algebra.Order.Field.Rat
 import Mathlib.Tactic.NormNum
+import Mathlib.Tactic.Ring
 set_option linter.unusedSectionVars false
 
 namespace Gpv.C12Alias
@@ -459,6 +486,288 @@ theorem cov_raw_ne_fixed_counterexample : covStepRaw exC exView ≠ covStepFixed
   rw [cov_fixed_eq_pure]; exact cov_raw_view_counterexample
 end covex
 
+
+/-! ### 7. ADDED: the plain `Mean`, whose read-out `value` IS its state array
+
+    `acc += acc.value[::-1]` passes a view of `_val` as the observation.  `meanStepOne` is
+    the code as it is (one statement, everything read before the write), `meanStepTwo` the
+    two-statement rewrite `_val -= _val/_n ; _val += obj/_n`. -/
+section meanPure
+variable {K : Type} [Add K] [Sub K] [Mul K] [Div K] [NatCast K]
+
+/-- the scalar `Mean.push` of component `i`, when both arrays have a component `i` -/
+def mCompPush (n : Nat) (v x : Option K) : Option (Mean K) :=
+  match v, x with
+  | some v, some x => some ((⟨v, n⟩ : Mean K).push x)
+  | _, _ => none
+
+theorem meanStepPure_n (st : MSt K) (xs : List K) : (meanStepPure st xs).n = st.n + 1 := rfl
+
+/-- **relation to the scalar model**: component `i` of `meanStepPure` is `Gpv.Mean.push` of
+    component `i` of the state with the `i`-th value (no shape hypothesis) -/
+theorem meanStepPure_val_getElem? (st : MSt K) (xs : List K) (i : Nat) :
+    (meanStepPure st xs).val[i]? = (mCompPush st.n st.val[i]? xs[i]?).map (·.val) := by
+  simp only [meanStepPure, List.getElem?_map, List.getElem?_zipWith, mCompPush]
+  cases hv : st.val[i]? <;> cases hx : xs[i]? <;> simp
+
+theorem meanStepPure_val_length {d : Nat} {st : MSt K} {xs : List K} (hs : st.Shaped d)
+    (hx : xs.length = d) : (meanStepPure st xs).val.length = d := by
+  have hs' : st.val.length = d := hs
+  simp [meanStepPure, hs', hx]
+
+/-- the pure step keeps the shape -/
+theorem meanStepPure_shaped {d : Nat} {st : MSt K} {xs : List K} (hs : st.Shaped d)
+    (hx : xs.length = d) : (meanStepPure st xs).Shaped d := meanStepPure_val_length hs hx
+
+/-- in range: `meanStepPure` IS `Gpv.Mean.push` of the scalar model on component `i` -/
+theorem meanStepPure_val_getElem {d : Nat} {st : MSt K} {xs : List K} (hs : st.Shaped d)
+    (hx : xs.length = d) {i : Nat} (hi : i < d) :
+    (meanStepPure st xs).val[i]'(by rw [meanStepPure_val_length hs hx]; exact hi) =
+      ((⟨st.val[i]'(by rw [show st.val.length = d from hs]; exact hi), st.n⟩ : Mean K).push
+        (xs[i]'(by rw [hx]; exact hi))).val := by
+  have h := meanStepPure_val_getElem? st xs i
+  rw [List.getElem?_eq_getElem (by rw [meanStepPure_val_length hs hx]; exact hi),
+    List.getElem?_eq_getElem (by rw [show st.val.length = d from hs]; exact hi),
+    List.getElem?_eq_getElem (by rw [hx]; exact hi)] at h
+  simpa [mCompPush] using h
+end meanPure
+
+section meanSteps
+variable {K : Type} [Add K] [Sub K] [Mul K] [Div K] [NatCast K] [Inhabited K]
+
+/-- a well-shaped observation shows `d` values -/
+theorem mReadObs_length {d : Nat} {st : MSt K} {o : Obs K} (h : o.Shaped d) :
+    (mReadObs st o).length = d := readObs_length h
+
+/-- a fresh array shows its own values in every state -/
+theorem mReadObs_fresh (st : MSt K) (xs : List K) : mReadObs st (.fresh xs) = xs := rfl
+
+/-- the one-statement code is the pure step on the values the observation shows — for ANY
+    lists, shaped or not (both sides truncate alike) -/
+theorem mean_one_eq_pure_any (st : MSt K) (o : Obs K) :
+    meanStepOne st o = meanStepPure st (mReadObs st o) := by
+  simp only [meanStepOne, meanStepPure, MSt.mk.injEq, and_true]
+  apply List.ext_getElem
+  · simp [meanUpd]; omega
+  · intro i h1 h2
+    simp [meanUpd, Mean.push]
+
+/-- **the code as it is, is right for every view**: for every well-formed state and EVERY
+    observation — the caller's own array, or any view σ of the state array `acc.value`
+    (reversal, transposition, any permutation, repeated indices) — `Mean._accumulate_obj`
+    treats the observation exactly like a copy of the values it shows at the moment of the
+    call: it is the scalar `Gpv.Mean.push` in every component.  No field axiom is used, so the
+    statement holds for floats as well. -/
+theorem mean_one_eq_pure {d : Nat} {st : MSt K} {o : Obs K} (_h : MWF d st o) :
+    meanStepOne st o = meanStepPure st (mReadObs st o) := mean_one_eq_pure_any st o
+
+/-- the code as it is keeps the shape -/
+theorem mean_one_shaped {d : Nat} {st : MSt K} {o : Obs K} (h : MWF d st o) :
+    (meanStepOne st o).Shaped d := by
+  rw [mean_one_eq_pure h]; exact meanStepPure_shaped h.1 (mReadObs_length h.2)
+
+/-- the code as it is, as the array model of `Gpv.Model.Accum` (`Mean` instantiated at numpy
+    operands): `Gpv.Mean.push` on the values the observation shows; no hypothesis, by
+    unfolding. -/
+theorem mean_one_toVal (st : MSt K) (o : Obs K) :
+    (meanStepOne st o).toVal = st.toVal.push (.arr (mReadObs st o)) := rfl
+
+/-- the component-wise step and the array model agree -/
+theorem meanStepPure_toVal (st : MSt K) (xs : List K) :
+    (meanStepPure st xs).toVal = st.toVal.push (.arr xs) := by
+  rw [← mReadObs_fresh st xs, ← mean_one_eq_pure_any]; rfl
+
+/-- the mean update `self.mean += obj` inside `Variance._accumulate_obj` (before or after the
+    fix) is this very step: the `mean` array of `stepRaw` is the `val` array of `meanStepOne` -/
+theorem stepRaw_mean_eq_meanStepOne (st : St K) (o : Obs K) :
+    (stepRaw st o).mean = (meanStepOne ⟨st.mean, st.n⟩ o).val := rfl
+end meanSteps
+
+section meanField
+variable {K : Type} [Field K] [Inhabited K]
+
+/-- **without aliasing the rewrite is harmless**: on the caller's own array the two-statement
+    version equals the one-statement version, as an identity of real numbers (any field):
+    `v - v/n + x/n = v + (x/n - v/n)` in every component.  In floating point the two differ
+    by rounding only (three roundings `fl(fl(v - fl(v/n)) + fl(x/n))` against
+    `fl(v + fl(fl(x/n) - fl(v/n)))`); this theorem says nothing about floats. -/
+theorem mean_two_fresh_eq_one (st : MSt K) (xs : List K) :
+    meanStepTwo st (.fresh xs) = meanStepOne st (.fresh xs) := by
+  simp only [meanStepTwo, meanStepOne, mReadObs_fresh, MSt.mk.injEq, and_true]
+  apply List.ext_getElem
+  · simp [meanUpd, vadd, vsub, vdivn]; omega
+  · intro i h1 h2
+    simp only [meanUpd, vadd, vsub, vdivn, List.getElem_zipWith, List.getElem_map]
+    ring
+
+/-- hence on fresh observations the rewrite is the pure step as well -/
+theorem mean_two_fresh_eq_pure (st : MSt K) (xs : List K) :
+    meanStepTwo st (.fresh xs) = meanStepPure st xs := by
+  rw [mean_two_fresh_eq_one, mean_one_eq_pure_any, mReadObs_fresh]
+
+/-- the code as it is, on the identity view `acc += acc.value`: the mean of the values plus
+    their mean again is the same mean — the array does not move, only the count does -/
+theorem mean_one_identity_view {d : Nat} {st : MSt K} (hs : st.Shaped d) :
+    meanStepOne st (.view (List.range d)) = ⟨st.val, st.n + 1⟩ := by
+  have hs' : st.val.length = d := hs
+  subst hs'
+  simp only [meanStepOne, mReadObs, MSt.asSt, readObs, gather_range, meanUpd_self]
+
+/-- **the rewrite goes wrong even for `acc += acc.value`** (identity view, all d, any field):
+    step 1 turns every component `v` into `v - v/n'`, step 2 reads THAT and adds its `n'`-th
+    part, so the result is `v·(1 − 1/n'²)` in every component, `n' = n + 1` being the new
+    count — not `v`, which is what the code as it is gives (`mean_one_identity_view`). -/
+theorem mean_two_identity_view {d : Nat} {st : MSt K} (hs : st.Shaped d) :
+    meanStepTwo st (.view (List.range d)) =
+      ⟨st.val.map fun v => v * (1 - 1 / (((st.n + 1 : Nat) : K)) ^ 2), st.n + 1⟩ := by
+  have hs' : st.val.length = d := hs
+  subst hs'
+  have hlen : (vsub st.val (vdivn st.val (st.n + 1))).length = st.val.length := by
+    simp [vsub, vdivn]
+  simp only [meanStepTwo, mReadObs, MSt.asSt, readObs, MSt.mk.injEq, and_true]
+  rw [← hlen, gather_range]
+  apply List.ext_getElem
+  · simp [vadd, vsub, vdivn]
+  · intro i h1 h2
+    simp only [vadd, vsub, vdivn, List.getElem_zipWith, List.getElem_map]
+    ring
+
+/-- so on the identity view the rewrite differs from the code as it is in every component
+    that is not zero, as soon as the new count is not zero in `K` (always, in ℚ or ℝ) -/
+theorem mean_two_identity_view_ne_one {d : Nat} {st : MSt K} (hs : st.Shaped d)
+    (hn : ((st.n + 1 : Nat) : K) ≠ 0) {i : Nat} (hi : i < d)
+    (hv : st.val[i]'(by rw [show st.val.length = d from hs]; exact hi) ≠ 0) :
+    (meanStepTwo st (.view (List.range d))).val[i]? ≠
+      (meanStepOne st (.view (List.range d))).val[i]? := by
+  have hi' : i < st.val.length := by rw [show st.val.length = d from hs]; exact hi
+  rw [mean_two_identity_view hs, mean_one_identity_view hs]
+  simp only [List.getElem?_map, List.getElem?_eq_getElem hi', Option.map_some, ne_eq,
+    Option.some.injEq]
+  intro h
+  have h2 : st.val[i] * (1 / ((st.n + 1 : Nat) : K) ^ 2) = 0 := by
+    have : st.val[i] * (1 - 1 / ((st.n + 1 : Nat) : K) ^ 2)
+        = st.val[i] - st.val[i] * (1 / ((st.n + 1 : Nat) : K) ^ 2) := by ring
+    rw [this] at h
+    exact sub_eq_self.mp h
+  rcases mul_eq_zero.mp h2 with h3 | h3
+  · exact hv h3
+  · exact (one_div_ne_zero (pow_ne_zero 2 hn)) h3
+end meanField
+
+section meanCounterexample
+
+/-- `Mean` after `[10.25, 10.75]`, `[-10.75, -9.125]`, `[11.375, 12.875]` (the `mean` part of
+    `exSt`), d = 2, n = 3 -/
+def exM : MSt Rat := ⟨[29/8, 29/6], 3⟩
+
+theorem exM_wf : MWF 2 exM exView := by
+  refine ⟨rfl, rfl, ?_⟩
+  decide
+
+/-- `exM` is the state the three observations lead to (from the empty accumulator) -/
+theorem exM_reached :
+    [[41/4, 43/4], [-43/4, -73/8], [91/8, 103/8]].foldl meanStepPure (⟨[0, 0], 0⟩ : MSt Rat)
+      = exM := by
+  simp [meanStepPure, Mean.push, exM]
+  norm_num
+
+/-- the reversed view `acc.value[::-1]` shows the state array, reversed -/
+theorem exM_read : mReadObs exM exView = [29/6, 29/8] := by
+  simp [mReadObs, MSt.asSt, readObs, gather, exM, exView]
+
+/-- the code as it is -/
+theorem mean_one_view_value : meanStepOne exM exView = ⟨[377/96, 145/32], 4⟩ := by
+  simp [meanStepOne, mReadObs, MSt.asSt, exM, exView, readObs, gather, meanUpd]
+  norm_num
+
+/-- the pure step on the values read -/
+theorem mean_pure_view_value : meanStepPure exM (mReadObs exM exView) = ⟨[377/96, 145/32], 4⟩ := by
+  rw [← mean_one_eq_pure exM_wf, mean_one_view_value]
+
+/-- the two-statement rewrite: step 1 leaves `[87/32, 29/8]`, which the view shows reversed -/
+theorem mean_two_view_value : meanStepTwo exM exView = ⟨[29/8, 551/128], 4⟩ := by
+  simp [meanStepTwo, mReadObs, MSt.asSt, exM, exView, readObs, gather, vadd, vsub, vdivn]
+  norm_num
+
+/-- **the rewrite is wrong on a view** (d = 2, n = 3 → 4, exact rationals): for the state
+    `[29/8, 29/6]` and the reversed view `acc.value[::-1]` the two-statement version gives
+    `[29/8, 551/128]`, the pure step on the values read — and the code as it is — gives
+    `[377/96, 145/32]`. -/
+theorem mean_two_view_counterexample :
+    meanStepTwo exM exView ≠ meanStepPure exM (mReadObs exM exView) := by
+  rw [mean_two_view_value, mean_pure_view_value]
+  intro h
+  have h0 := congrArg (fun s : MSt Rat => s.val.head?) h
+  norm_num at h0
+
+theorem mean_two_ne_one_counterexample : meanStepTwo exM exView ≠ meanStepOne exM exView := by
+  rw [mean_one_eq_pure exM_wf]; exact mean_two_view_counterexample
+
+/-- even `acc += acc.value` goes wrong with the rewrite: `[29/8, 29/6]·(1 − 1/16)` instead of
+    `[29/8, 29/6]` (instance of `mean_two_identity_view`) -/
+theorem mean_two_identity_counterexample :
+    meanStepTwo exM (.view [0, 1]) = ⟨[435/128, 145/32], 4⟩ ∧
+    meanStepOne exM (.view [0, 1]) = ⟨[29/8, 29/6], 4⟩ := by
+  have h2 := mean_two_identity_view (K := Rat) (d := 2) (st := exM) rfl
+  have h1 := mean_one_identity_view (K := Rat) (d := 2) (st := exM) rfl
+  have hr : List.range 2 = [0, 1] := rfl
+  rw [hr] at h1 h2
+  refine ⟨?_, h1⟩
+  rw [h2]
+  simp [exM]
+  norm_num
+end meanCounterexample
+
+section meanIndependence
+variable {K : Type} [Add K] [Sub K] [Mul K] [Div K] [NatCast K] [Inhabited K]
+
+/-- The C12 clause for one step of an array `Mean` of `d` components: component `i` of the
+    result depends only on component `i` of the state (and the count) and on the `i`-th value
+    the observation shows — whatever the other components are, and whether the observations
+    are fresh arrays or views. -/
+def MIndependent (d : Nat) (step : MSt K → Obs K → MSt K) : Prop :=
+  ∀ (st st' : MSt K) (o o' : Obs K) (i : Nat), MWF d st o → MWF d st' o' → st.n = st'.n →
+    st.val[i]? = st'.val[i]? →
+    (mReadObs st o)[i]? = (mReadObs st' o')[i]? →
+    (step st o).val[i]? = (step st' o').val[i]?
+
+/-- **components never influence each other (the code as it is)**: changing the other
+    components of `st.val` (and the kind of observation) while keeping component `i` of the
+    state and the `i`-th read value leaves component `i` of the result unchanged. -/
+theorem mean_components_independent_one {d : Nat} {st st' : MSt K} {o o' : Obs K} {i : Nat}
+    (h : MWF d st o) (h' : MWF d st' o') (hn : st.n = st'.n)
+    (hv : st.val[i]? = st'.val[i]?)
+    (hx : (mReadObs st o)[i]? = (mReadObs st' o')[i]?) :
+    (meanStepOne st o).val[i]? = (meanStepOne st' o').val[i]? := by
+  rw [mean_one_eq_pure h, mean_one_eq_pure h']
+  simp only [meanStepPure_val_getElem?, hn, hv, hx]
+
+theorem mean_one_independent (d : Nat) : MIndependent d (meanStepOne (K := K)) :=
+  fun _ _ _ _ _ h h' hn hv hx => mean_components_independent_one h h' hn hv hx
+
+/-- explicit form: component `i` of the code as it is, is the scalar `Mean.push` of component
+    `i` of the state with the `i`-th read value -/
+theorem mean_one_component (st : MSt K) (o : Obs K) (i : Nat) :
+    (meanStepOne st o).val[i]? =
+      (mCompPush st.n st.val[i]? (mReadObs st o)[i]?).map (·.val) := by
+  rw [mean_one_eq_pure_any]; exact meanStepPure_val_getElem? _ _ _
+end meanIndependence
+
+section meanViolation
+/-- **the two-statement rewrite violates independence** (d = 2): same state, same values
+    read — once through the reversed view, once as a copy — different component 0
+    (`29/8` against `377/96`).  The cross-talk is between a view and a copy only: for a view σ
+    component `i` of the rewrite is `(v_i − v_i/n') + (v_σi − v_σi/n')/n'`, a function of
+    `v_i` and the read value `v_σi` alone, but not the function used for a copy. -/
+theorem mean_two_not_independent : ¬ MIndependent 2 (meanStepTwo (K := Rat)) := by
+  intro hind
+  have hwf' : MWF 2 exM (.fresh [29/6, 29/8]) := ⟨rfl, rfl⟩
+  have h := hind exM exM exView (.fresh [29/6, 29/8]) 0 exM_wf hwf' rfl rfl
+    (by rw [exM_read]; rfl)
+  rw [mean_two_view_value, mean_two_fresh_eq_pure, ← exM_read, mean_pure_view_value] at h
+  norm_num at h
+end meanViolation
+
 end Gpv.C12Alias
 
 #print axioms Gpv.C12Alias.gather_length
@@ -511,3 +820,35 @@ end Gpv.C12Alias
 #print axioms Gpv.C12Alias.cov_pure_view_value
 #print axioms Gpv.C12Alias.cov_raw_view_counterexample
 #print axioms Gpv.C12Alias.cov_raw_ne_fixed_counterexample
+-- ADDED (section 7, plain Mean)
+#print axioms Gpv.C12Alias.meanStepPure_n
+#print axioms Gpv.C12Alias.meanStepPure_val_getElem?
+#print axioms Gpv.C12Alias.meanStepPure_val_length
+#print axioms Gpv.C12Alias.meanStepPure_shaped
+#print axioms Gpv.C12Alias.meanStepPure_val_getElem
+#print axioms Gpv.C12Alias.mReadObs_length
+#print axioms Gpv.C12Alias.mReadObs_fresh
+#print axioms Gpv.C12Alias.mean_one_eq_pure_any
+#print axioms Gpv.C12Alias.mean_one_eq_pure
+#print axioms Gpv.C12Alias.mean_one_shaped
+#print axioms Gpv.C12Alias.mean_one_toVal
+#print axioms Gpv.C12Alias.meanStepPure_toVal
+#print axioms Gpv.C12Alias.stepRaw_mean_eq_meanStepOne
+#print axioms Gpv.C12Alias.mean_two_fresh_eq_one
+#print axioms Gpv.C12Alias.mean_two_fresh_eq_pure
+#print axioms Gpv.C12Alias.mean_one_identity_view
+#print axioms Gpv.C12Alias.mean_two_identity_view
+#print axioms Gpv.C12Alias.mean_two_identity_view_ne_one
+#print axioms Gpv.C12Alias.exM_wf
+#print axioms Gpv.C12Alias.exM_reached
+#print axioms Gpv.C12Alias.exM_read
+#print axioms Gpv.C12Alias.mean_one_view_value
+#print axioms Gpv.C12Alias.mean_pure_view_value
+#print axioms Gpv.C12Alias.mean_two_view_value
+#print axioms Gpv.C12Alias.mean_two_view_counterexample
+#print axioms Gpv.C12Alias.mean_two_ne_one_counterexample
+#print axioms Gpv.C12Alias.mean_two_identity_counterexample
+#print axioms Gpv.C12Alias.mean_components_independent_one
+#print axioms Gpv.C12Alias.mean_one_independent
+#print axioms Gpv.C12Alias.mean_one_component
+#print axioms Gpv.C12Alias.mean_two_not_independent
